@@ -417,7 +417,7 @@ class Driver:
         def do(op):
             ops.append(op)
             return self.apply(op)
-        for per in range(rng.choice([1, 2, 2, 3, 4])):
+        for per in range(rng.choice([1, 2, 2, 3, 4]) if rng.random() > 0.03 else rng.choice([9, 14])):
             if per and timed and rng.random() < 0.5:
                 st = rng.choice(timed)
                 v = GRID * rng.choice([0, 1, 3, 8, -2]) if grid else rng.choice([0, period, 3 * period, rng.randrange(1, 5 * period), -period, -1])
